@@ -124,3 +124,42 @@ def inherited_hook_cases():
         out.append((name, C, [{'a': 1}, {'a': 7}, {}, {'a': 'x'}]))
         out.append((f"Optional[{name}]", t.Optional[C], [{'a': 7}, None, {'a': 2}]))
     return out
+
+
+def generic_nesting_case(rng):
+    """
+    Fresh generic dataclasses subscripted with arguments that are themselves subscripted generics - Outer[List[Inner[int]]] beside
+    Outer[List[Inner[str]]], Envelope[Ok[int]] beside Envelope[Ok[str]], two same-named enums as arguments - in a random order of first use.
+    Returns [(description, type, value, must_accept)].
+    """
+    import enum
+    import types as _types
+    T = t.TypeVar('T')
+    U = t.TypeVar('U')
+    n = next(_counter)
+    Inner = _types.new_class(f"Inner", (env.PaneBase, t.Generic[T]), {}, lambda ns: ns.update({'__annotations__': {'v': T}, '__module__': __name__}))
+    Outer = _types.new_class(f"Outer", (env.PaneBase, t.Generic[U]), {}, lambda ns: ns.update({'__annotations__': {'items': U}, '__module__': __name__}))
+    shape = rng.choice(('list', 'direct', 'dict', 'optional', 'enum'))
+    if shape == 'enum':
+        def mk(vals):
+            return enum.Enum('Level', vals)
+        a1, a2 = mk({'LOW': 1, 'HIGH': 2}), mk({'LOW': 'low', 'HIGH': 'high'})
+        d1, d2 = 1, 'low'
+    else:
+        a1, a2 = Inner[int], Inner[str]
+        d1, d2 = {'v': 1}, {'v': 's'}
+    wrap = {'list': lambda a: t.List[a], 'direct': lambda a: a, 'dict': lambda a: t.Dict[str, a], 'optional': lambda a: t.Optional[a], 'enum': lambda a: t.List[a]}[shape]
+    put = {'list': lambda d: [d], 'direct': lambda d: d, 'dict': lambda d: {'k': d}, 'optional': lambda d: d, 'enum': lambda d: [d]}[shape]
+    specs = [(a1, d1, d2), (a2, d2, d1)]
+    if rng.random() < 0.5:
+        specs.reverse()
+    rows = []
+    for arg, good, bad in specs:
+        TT = Outer[wrap(arg)]
+        rows.append((f"Outer[{shape} of {getattr(arg, '__name__', arg)}] <- its own data", TT, {'items': put(good)}, True))
+        rows.append((f"Outer[{shape} of {getattr(arg, '__name__', arg)}] <- the other argument's data", TT, {'items': put(bad)}, False))
+    return rows
+
+
+import itertools as _it
+_counter = _it.count()
